@@ -483,7 +483,7 @@ def _read_healsparse_fits_file_and_degrade(filename, pixels, nside_out, reductio
             # We should avoid integers
             test_arr = np.zeros(1, dtype=dtype)
             for key, value in dtype.fields.items():
-                if issubclass(test_arr[key].dtype.type, np.integer):
+                if issubclass(test_arr[key].dtype.type, (np.integer, np.bool_)):
                     dtype_out.append((key, np.float64))
                 else:
                     dtype_out.append((key, value[0]))
